@@ -933,6 +933,15 @@ impl Error {
         }
     }
 
+    /// Budget breaches and I/O failures are never "trailing garbage": entry points that
+    /// tolerate scan errors after the end of the first document must still report them.
+    pub(crate) fn is_budget_or_io_error(&self) -> bool {
+        matches!(
+            self.without_snippet(),
+            Error::Budget { .. } | Error::IOError { .. }
+        )
+    }
+
     /// Provide "no snippet" version for cases when snippet rendering is not  desired.
     pub fn without_snippet(&self) -> &Self {
         match self {
